@@ -375,7 +375,8 @@ Section Conv.
                        end
                    | SInline cond _ sub line =>
                        do D <- pp NOtherNode None (pos_of src line) (Some Q);
-                       match find_type sch cond with
+                       (* without a type condition the fragment applies to the type it is spread into *)
+                       match (match cond with [] => Some containing | _ => find_type sch cond end) with
                        | None => Panic (b "convertInlineFragment: schema.Types[TypeCondition] is nil")
                        | Some ft =>
                            if negb (fragment_matches containing ft) then Ok (done, tmx)
